@@ -261,3 +261,60 @@ def extra_rules(F, R):
             R.check(ok, "R09.11", "referenced_variables_to_vec:%s-recurses-unconditionally" % arm, rv.where(), "every element is walked",
                     "in the %s arm the per-element closure does not call referenced_variables_to_vec on every path: variables nested in some kinds of elements (e.g. a list "
                     "inside an input object) are invisible to NoUndefinedVariables / NoUnusedVariables" % arm)
+
+    R.rule("R09.12", "the specification's validation rules are static: of the rule visitors only ArgumentsOfCorrectType (which validates the supplied values of "
+                     "variables used as arguments) reads the request's variables (VisitorContext.variables); every other rule decides from the document and "
+                     "the schema alone — a rule that consults the variables accepts an invalid document for some requests")
+    readers = set()
+    for b in F.bodies.values():
+        if not b.defp.startswith("async_graphql::validation::rules::") or "::tests::" in b.defp:
+            continue
+        if not any("VisitorContext" in t for t in b.locals):
+            own = F.get(b.owner) if b.owner else None
+            if not (own and any("VisitorContext" in t for t in own.locals)):
+                continue
+        for bb, st in b.all_stmts():
+            if "'.variables'" in str(st[1]) or "'.variables'" in str(st[0]):
+                readers.add(b.owner or b.defp)
+                break
+        for c in b.calls():
+            if any("'.variables'" in str(a) for a in c.args):
+                readers.add(b.owner or b.defp)
+    allowed = re.compile(r"^async_graphql::validation::rules::arguments_of_correct_type::")
+    R.check(any(allowed.match(x) for x in readers), "R09.12", "variables-read-by:arguments_of_correct_type", "-", "the value-checking rule reads the variables", "matcher found no reader of VisitorContext.variables (anchor)")
+    for x in sorted(readers):
+        if allowed.match(x):
+            continue
+        key = re.sub(r"\{impl#\d+\}", "{impl}", x.replace("async_graphql::validation::rules::", ""))
+        R.violation("R09.12", "static-rule-reads-request-variables:" + key, (F.get(x).where() if F.get(x) else "-"),
+                    "%s reads the request's variables: whether the document is accepted depends on the supplied variables (e.g. an ill-typed default value is accepted "
+                    "whenever the variable is supplied)" % key)
+
+    R.rule("R09.13", "an inline fragment without type condition is validated under the enclosing type: in visit_selection's InlineFragment arm the type stack is "
+                     "changed (VisitorContext::with_type) only on the edge where a type condition is present; without one the selection is visited directly")
+    vs = F.one(r"async_graphql::validation::visitor::visit_selection$", kind="fn")
+    regs = enum_arm_regions(vs, r"::Selection$")
+    ok13 = False
+    for sbb, named in regs[:1]:
+        region = named.get("InlineFragment", set())
+        wts = [c for c in vs.calls() if c.bb in region and c.callee and re.search(r"visitor::\{impl#\d+\}::with_type$", c.callee)]
+        direct = [c for c in vs.calls() if c.bb in region and c.callee and re.search(r"visitor::visit_inline_fragment$", c.callee)]
+        conds = []
+        for (ob, place, adt, arms, other, vmap) in vs.enum_switches(r"core::option::Option$"):
+            if ob in region and arms.get("Some") is not None:
+                o, passed = trace(vs, vs.term(ob)[1])
+                via = any(k == "field" and ".type_condition" in x for k, x in o) or ".type_condition" in str(place)
+                for p_ in passed:
+                    if p_.args and any(k == "field" and ".type_condition" in x for k, x in trace(vs, p_.args[0])[0]):
+                        via = True
+                    if p_.args and p_.args[0][0] in ("c", "m") and ".type_condition" in str(p_.args[0][1]):
+                        via = True
+                if via:
+                    conds.append((ob, arms))
+        guarded = bool(wts) and bool(conds) and all(any(vs.dominates(ob, w.bb) and w.bb in vs.reachable(arms["Some"], avoid=[ob]) and
+                                                       (arms.get("None") is None or w.bb not in vs.reachable(arms["None"], avoid=[ob])) for ob, arms in conds) for w in wts)
+        ok13 = guarded and len(direct) >= 1
+        R.check(ok13, "R09.13", "visit_selection:inline-fragment-without-condition-keeps-the-type", vs.where(), "%d with_type sites, all on the Some(type_condition) edge" % len(wts),
+                "with_type is applied to an inline fragment that has no type condition (pushing an unknown type): every type-dependent rule skips the selections inside `... { }` "
+                "and `... @include(..) { }`")
+    R.check(bool(regs), "R09.13", "visit_selection:arms", vs.where(), "Selection switch found", "no Selection switch in visit_selection")
